@@ -39,13 +39,14 @@ def lossless_cast(frm, to):
     return False
 
 
-def casts_with_ancestors(body):
-    """[(cast node, [ancestor nodes])]"""
+def casts_with_ancestors(body, own_macros=()):
+    """[(cast node, [ancestor nodes])]; casts written inside the expansion of a standard-library macro are not the workspace's own, those inside one of
+    the workspace's macro_rules! are"""
     out = []
 
     def rec(n, anc):
         if isinstance(n, dict):
-            if n.get('k') == 'cast' and not n.get('x'):
+            if n.get('k') == 'cast' and (not n.get('x') or n.get('m') in own_macros):
                 out.append((n, list(anc)))
             anc.append(n)
             for v in n.values():
@@ -143,11 +144,12 @@ def r2_checked(rep, facts):
 def r3_casts(rep, facts):
     R = rep.rule('C11/R3', 'every `as` cast in the five crates is lossless by type, or dominated by a successful range check on the same '
                  'operand; u64 -> i64 on the serde paths goes through a checked conversion', floor=18)
+    own_macros = {m['name'] for m in src_facts(facts.repo)['macros']}
     for d, b in sorted(facts.bodies.items()):
         if b.get('derived'):
             continue
         idx = 0
-        for c, anc in casts_with_ancestors(b):
+        for c, anc in casts_with_ancestors(b, own_macros):
             frm = (peel(c['a']).get('t') or '?')
             if peel(c['a']).get('k') == 'path' and c['a'].get('k') == 'unary':
                 frm = c['a'].get('t') or frm
